@@ -103,6 +103,9 @@ class TridonicGW:
             idx = len(self.wire)
             self.wire.append((bits, value, twice, seq))
             rtype = 0x73 if bits == 16 else 0x76
+            # bus busy: traffic of another master passes (and is reported as observed) before the interface gets to transmit
+            for rep in getattr(self.w, "foreign_before", {}).get(idx, ()):
+                self.pending.append(rep)
             for _ in range(2 if twice else 1):
                 self.pending.append(report(0x12, rtype, data[4:8], seq))
             out = self.bus(bits, value, idx)
